@@ -1078,3 +1078,44 @@ pub fn selftest() -> Result<usize, String> {
     n += 4;
     Ok(n)
 }
+
+
+/// A reference value handed to a serde serialiser (used where the crate's API is generic over a
+/// caller-supplied `Serialize` type, e.g. authenticator-data extension outputs). Tags, floats,
+/// `undefined` and other simple values have no serde counterpart and are refused.
+impl serde::Serialize for Value {
+    fn serialize<S: serde::Serializer>(&self, s: S) -> Result<S::Ok, S::Error> {
+        use serde::ser::{Error, SerializeMap, SerializeSeq};
+        match self {
+            Value::Uint(u) => s.serialize_u64(*u),
+            Value::Nint(n) => {
+                if *n > i64::MAX as u64 {
+                    return Err(S::Error::custom("negative integer below i64::MIN"));
+                }
+                s.serialize_i64(-1 - *n as i64)
+            }
+            Value::Bytes(b) => s.serialize_bytes(b),
+            Value::Text(t) => match std::str::from_utf8(t) {
+                Ok(x) => s.serialize_str(x),
+                Err(_) => Err(S::Error::custom("ill-formed text")),
+            },
+            Value::Array(a) => {
+                let mut q = s.serialize_seq(Some(a.len()))?;
+                for x in a {
+                    q.serialize_element(x)?;
+                }
+                q.end()
+            }
+            Value::Map(m) => {
+                let mut q = s.serialize_map(Some(m.len()))?;
+                for (k, v) in m {
+                    q.serialize_entry(k, v)?;
+                }
+                q.end()
+            }
+            Value::Bool(b) => s.serialize_bool(*b),
+            Value::Null => s.serialize_none(),
+            _ => Err(S::Error::custom("no serde counterpart")),
+        }
+    }
+}
